@@ -63,6 +63,23 @@ OPS = [
     (r"\b255\b", "256"), (r"\b9999\b", "9998"), (r"\b132\b", "131"),
 ]
 
+# second operator set (usage: ... <max> <seed> <budget> 2): coordinate / dimension swaps, forced
+# conditions, constants, control flow
+OPS2 = [
+    (r"cursor\.x\b", "cursor.y"), (r"cursor\.y\b", "cursor.x"),
+    (r"self\.columns\b", "self.lines"), (r"self\.lines\b", "self.columns"),
+    (r"\btop\b", "bottom"), (r"\bbottom\b", "top"),
+    (r"\bif (?!let\b)([^{]+) \{", "if true {"), (r"\bif (?!let\b)([^{]+) \{", "if false {"),
+    (r"(?<![\w.])0(?![\w.])", "1"), (r"(?<![\w.])1(?![\w.])", "0"), (r"(?<![\w.])1(?![\w.])", "2"), (r"(?<![\w.])8(?![\w.])", "7"),
+    (r"\.rev\(\)", ""), (r"\bcontinue;", "break;"), (r"\bbreak;", "continue;"), (r"^\s*return;", "// (return deleted)"),
+    (r"\bcount\b(?!:)", "1"), (r"Some\(2\)", "Some(1)"), (r"Some\(3\)", "Some(2)"),
+    (r"\.insert\(", ".remove(&"), (r"!(?=[a-z(])", ""), (r"\.is_some\(\)", ".is_none()"), (r"\.is_none\(\)", ".is_some()"),
+    (r"\.is_empty\(\)", ".len() == 1"), (r"\+ count", "- count"), (r"- count", "+ count"), (r"\+=", "-="), (r"-=", "+="),
+]
+if len(sys.argv) > 4 and sys.argv[4] == "2":
+    OPS = OPS2
+    OUT = "/verif/work/mutation_campaign2.jsonl"
+
 def candidates():
     c = []
     for (f, a, b) in regions():
@@ -79,6 +96,8 @@ def candidates():
                     if new != l:
                         c.append((f, i + 1, pat, l, new))
             # statement deletion: a line that is a complete simple statement
+            if OPS is OPS2:
+                continue
             if re.match(r"^\s*self\.[a-z_\.]+\(.*\);\s*$", code) or re.match(r"^\s*self\.[a-z_\.]+ = .*;\s*$", code):
                 c.append((f, i + 1, "delete-statement", l, re.match(r"^\s*", l).group(0) + "// (deleted)"))
     return c
